@@ -56,9 +56,9 @@ func streePart(rep *core.Report, col *collector) {
 	// simplest first: shorter intervals first
 	sort.SliceStable(all, func(i, j int) bool { return all[i].t-all[i].f < all[j].t-all[j].f })
 	K := len(all) // 28
-	maxN := 3
+	maxN := 4
 	if core.Thorough() {
-		maxN = 4
+		maxN = 5
 	}
 	maps := []valueMap{
 		mkValueMap("dense", [latticeN]uint32{1, 2, 3, 4, 5, 6, 7}),
